@@ -89,6 +89,28 @@ where
         panic!("{ITER_INCONSISTENT_MSG}: last() == {last:?} but the last item next() yields is {:?}", v.last());
     }
     let _ = mk().size_hint();
+    // positional access on a fresh iterator, and the adaptors std builds on nth(): skip() and step_by()
+    if !v.is_empty() {
+        let render = |xs: &[I::Item]| -> Vec<String> { xs.iter().map(|x| format!("{x:?}")).collect() };
+        let mut it = mk();
+        let first = it.nth(0).map(|x| format!("{x:?}"));
+        if first != Some(format!("{:?}", v[0])) {
+            panic!("{ITER_INCONSISTENT_MSG}: nth(0) == {first:?} but next() yields {:?}", v[0]);
+        }
+        let rest = render(&drain(it, bound));
+        if rest != render(&v[1..]) {
+            panic!("{ITER_INCONSISTENT_MSG}: after nth(0) the iterator continues with {} items, next() alone yields {} more", rest.len(), v.len() - 1);
+        }
+        let skipped = render(&drain(mk().skip(1), bound));
+        if skipped != render(&v[1..]) {
+            panic!("{ITER_INCONSISTENT_MSG}: skip(1) yields {} items {:?}.., next() yields {} after the first", skipped.len(), skipped.first(), v.len() - 1);
+        }
+        let stepped = render(&drain(mk().step_by(2), bound));
+        let want: Vec<String> = v.iter().step_by(2).map(|x| format!("{x:?}")).collect();
+        if stepped != want {
+            panic!("{ITER_INCONSISTENT_MSG}: step_by(2) yields {} items, every other item of next() makes {}", stepped.len(), want.len());
+        }
+    }
     // nth() on a partly consumed iterator (also what skip() and step_by() are built on): one probe per call,
     // its position derived from the length so that different positions are hit across the workload
     if v.len() >= 3 {
@@ -249,12 +271,12 @@ pub fn item(i: &SdesItem) -> ItemObs {
 
 pub fn sdes(p: &Sdes, bound: usize) -> Content {
     Content::Sdes {
-        chunks: drain(p.chunks(), bound)
+        chunks: drain_checked(|| p.chunks(), bound)
             .into_iter()
             .map(|c| ChunkObs {
                 ssrc: c.ssrc(),
                 length: c.length(),
-                items: drain(c.items(), bound).into_iter().map(item).collect(),
+                items: drain_checked(|| c.items(), bound).into_iter().map(item).collect(),
             })
             .collect(),
     }
